@@ -199,6 +199,10 @@ def poly_of_term(t):
             num, den = poly_of_term(args[0]), poly_of_term(args[1])
             if den.is_const() and den.const_value() != 0:
                 return num * Poly.const(1 / den.const_value())
+            if len(den.terms) == 1:
+                # a single monomial c * a1^p1 * ...: divide by negative powers, so that x * (y / x) == y
+                (mono, coef), = den.terms.items()
+                return num * Poly({tuple(sorted(((a, -pw) for a, pw in mono), key=repr)): 1 / coef})
             return num * Poly.atom(("inv", _canon_poly_key(den)))
         if op == "Pow":
             base, ex = poly_of_term(args[0]), poly_of_term(args[1])
